@@ -1900,6 +1900,23 @@ class StrOf(Opaque):
         self.payload = payload
 
 
+def formatted_number(interp, v, digits, kind):
+    """text of format(v, '.{digits}{kind}') as a StrOf payload (read back by Decimal / float)"""
+    used(f"format(x, '.{digits}{kind}') (rounding to {digits} {'decimals' if kind == 'f' else 'significant digits'}: error bound only)")
+    if kind in ('g', 'e') and digits + (1 if kind == 'e' else 0) >= 17:
+        return StrOf(v)
+    ctx = interp.ctx
+    r = ctx.fresh_real('formatted')
+    x = z3real(v)
+    if kind == 'f':
+        bound = z3.RealVal(Fraction(1, 2 * 10 ** digits))
+    else:
+        sig = digits + (1 if kind == 'e' else 0)
+        bound = z3.If(x >= 0, x, -x) * z3.RealVal(Fraction(5, 10 ** sig))
+    ctx.s.add(r.t - x <= bound, x - r.t <= bound)
+    return StrOf(r)
+
+
 def _str_of_number(i, a, k):
     v = a[0] if a else ''
     if isinstance(v, str):
